@@ -53,7 +53,7 @@ def case_from_seed(seed, index, **kw):
 
 
 # ------------------------------------------------------------------ building
-def build_funcs(case, log=None, fault=None, tag=None, cache=None, prefix="", extra=None, explicit_defaults=False):
+def build_funcs(case, log=None, fault=None, tag=None, cache=None, prefix="", extra=None, explicit_defaults=False, value_wrap=None):
     """explicit_defaults: declare the defaults through PipeFunc(defaults=...) (stored on the PipeFunc) instead of
     through the function signature."""
     from pipefunc import PipeFunc
@@ -75,6 +75,12 @@ def build_funcs(case, log=None, fault=None, tag=None, cache=None, prefix="", ext
             kw["bound"] = dict(f["bound"])
         if xdef:
             kw["defaults"] = xdef
+        if value_wrap is not None:
+            # explicit default / bound values as OBJECTS (of a class that prints like the plain string): the very objects the
+            # user handed over are what the functions must receive
+            for key in ("bound", "defaults"):
+                if key in kw:
+                    kw[key] = {k: value_wrap(x) for k, x in kw[key].items()}
         if cache and f["name"] in cache:
             kw["cache"] = True
         if f.get("picker"):
